@@ -427,11 +427,14 @@ def check_trace(err, root, target, where):
         is_branch_point = len(failed) >= 2 or (failed and failed != [last])
         if not is_branch_point:
             continue
+        order = []
         for c in failed:
-            if c in path:
-                continue            # the branch that really raised is followed by the path checks
             full = fmtval(c.spec, 0)
             at = [i for i, p in spec_lines if shown_matches(p[3], full) and p[1] == '\\']
+            if at:
+                order.append(at[0])
+            if c in path:
+                continue            # the branch that really raised is followed by the path checks
             if not at:
                 raise Mismatch('branch-missing', '%s: the attempted branch %s of %s (ended by %s) is not shown as a branch:\n%s'
                                % (where, full[:80], type(n.spec).__name__, exc_line(c.exc)[:80], show))
@@ -439,6 +442,9 @@ def check_trace(err, root, target, where):
             if not any(p[2] == 'error' and ADDR.sub('', p[3]) == ADDR.sub('', want) and i > at[0] for i, p in enumerate(parsed)):
                 raise Mismatch('branch-error-missing', '%s: the error that ended branch %s (%s) is not shown:\n%s'
                                % (where, full[:80], want[:100], show))
+        if order != sorted(order):
+            raise Mismatch('branch-order', '%s: the branches of %s are not listed in evaluation order:\n%s'
+                           % (where, type(n.spec).__name__, show))
     # an error is printed at most once per nesting depth: the number of identical error lines at one depth
     # cannot exceed the number of distinct error objects with that text in the evaluation tree
     objs = {}
